@@ -136,7 +136,7 @@ func (rr *rulesRunner) nodeString(n ast.Node) string {
 }
 
 func (rr *rulesRunner) nodeText(n ast.Node) []byte {
-	if gogrep.IsEmptyNodeSlice(n) {
+	if isNilNode(n) || gogrep.IsEmptyNodeSlice(n) {
 		return nil
 	}
 
@@ -350,7 +350,9 @@ func (rr *rulesRunner) handleCommentMatch(rule goCommentRule, m matchData) bool 
 	message := rr.renderMessage(rule.base.msg, m, true)
 	node := m.Node()
 	if rule.base.location != "" {
-		node, _ = m.CapturedByName(rule.base.location)
+		if located, ok := m.CapturedByName(rule.base.location); ok && !isNilNode(located) && !gogrep.IsEmptyNodeSlice(located) {
+			node = located
+		}
 	}
 	var suggestion *Suggestion
 	if rule.base.suggestion != "" {
@@ -388,7 +390,11 @@ func (rr *rulesRunner) handleMatch(rule goRule, m gogrep.MatchData) bool {
 
 	node := m.Node
 	if rule.location != "" {
-		node, _ = m.CapturedByName(rule.location)
+		// A capture that matched nothing (a nil node, an empty $*list)
+		// has no position; report the whole match in that case.
+		if located, ok := m.CapturedByName(rule.location); ok && !isNilNode(located) && !gogrep.IsEmptyNodeSlice(located) {
+			node = located
+		}
 	}
 
 	var messageText string
